@@ -21,7 +21,7 @@ type renderer struct {
 	sb   strings.Builder
 	line int
 	ind  int
-	hdr  int // >0 while rendering an if/for header: map and func literals get parentheses
+	hdr  int // >0 while rendering an if/for header: map literals get parentheses (a func literal must not: `x := (func() {..})` does not make x visible inside the literal, `x := func() {..}` does)
 }
 
 func (r *renderer) header(e *Node) {
@@ -213,7 +213,7 @@ func needsParens(e *Node) bool {
 // expr renders e; when operand is true the expression is an operand of an
 // operator / base of a postfix form and gets parentheses if compound.
 func (r *renderer) expr(e *Node, operand bool) {
-	if (operand && needsParens(e)) || (r.hdr > 0 && (e.K == "map" || e.K == "func")) {
+	if (operand && needsParens(e)) || (r.hdr > 0 && e.K == "map") {
 		r.w("(")
 		h := r.hdr
 		r.hdr = 0
